@@ -5,6 +5,7 @@ import XixiKV.Drv.Adopt
 import XixiKV.Model.Conc
 import XixiKV.Model.Lockset
 import XixiKV.Drv.Fio
+import XixiKV.Model.ConcMerge
 /-!
 Line-protocol driver of the Lean model: one operation per input line, one canonical result per
 output line — the same lines `harness/cmd/xkv run` consumes and produces for the real engine.
@@ -385,6 +386,18 @@ def step (ds : DState) (line : String) : DState × String :=
         | _ => XixiKV.Conc.Shape.allTrue
     match XixiKV.Conc.parseSchedule (" ".intercalate rest) with
     | some sc => (ds, (XixiKV.Conc.run sh sc).render)
+    | none => (ds, "bad:schedule")
+  | "concm" :: flags :: rest =>
+    -- the same with a concurrent Merge (Model/ConcMerge.lean); flags = "gen" or four chars, the
+    -- fourth = "the merge fixes its boundary while holding db.mu"
+    let tbl := XixiKV.Generated.locksetTable
+    let (sh, b) : XixiKV.Conc.Shape × Bool :=
+      if flags = "gen" then (XixiKV.Lockset.shapeOf tbl, XixiKV.Lockset.mergeStartInLock tbl)
+      else match flags.toList with
+        | [a, b, c, d] => (⟨a = '1', b = '1', c = '1'⟩, d = '1')
+        | _ => (XixiKV.Conc.Shape.allTrue, true)
+    match XixiKV.ConcMerge.parseScheduleM (" ".intercalate rest) with
+    | some sc => (ds, XixiKV.ConcMerge.renderM sh b sc)
     | none => (ds, "bad:schedule")
   | ["geom", o, n] =>
     -- writeToBuf geometry for a file whose writer state is (0, o) and a payload of n bytes
